@@ -238,6 +238,97 @@ PARAMS = "{V : Type} (xgcd : Int → Int → Int × Int × Int) (tdiv tmod : Int
          "    (lc : Int → V → Int → V → V) (neg : V → V)"
 
 
+# ------------------------------------------------------------------------------------------------ control program
+FUEL = 16
+
+
+def only_copies(ast):
+    for st in ast:
+        if st[0] == "stmt":
+            if not re.match(r"^(ibz_copy|ibz_set|\w+_init|\w+_finalize)\(", st[1]):
+                return False
+        elif st[0] in ("for", "while"):
+            if not only_copies(st[2]):
+                return False
+        else:
+            return False
+    return True
+
+
+def int_expr(e, ints):
+    e = e.strip()
+    m = re.match(r"^(\w+)\s*([+-])\s*(\d+)$", e)
+    if m and m.group(1) in ints:
+        return "s.%s %s %s" % (m.group(1), m.group(2), m.group(3))
+    if e in ints:
+        return "s.%s" % e
+    if re.match(r"^-?\d+$", e):
+        return e if not e.startswith("-") else "(%s)" % e
+    raise TranslateError("hnf_core: integer expression not in subset: %r" % e)
+
+
+def int_cond(c, ints):
+    c = c.strip()
+    m = re.match(r"^(\w+)\s*(!=|<|==)\s*(-?\d+)$", c)
+    if m and m.group(1) in ints:
+        lit = m.group(3) if not m.group(3).startswith("-") else "(%s)" % m.group(3)
+        op = {"!=": "!=", "==": "==", "<": "<"}[m.group(2)]
+        return "(s.%s %s %s)" % (m.group(1), op, lit) if op != "<" else "(decide (s.%s < %s))" % (m.group(1), lit)
+    m = re.match(r"^(!?)ibz_is_zero\(\s*&(\w+)\s*\)$", c)
+    if m and m.group(2) == "b":
+        return "(s.b %s 0)" % ("!=" if m.group(1) else "==")
+    raise TranslateError("hnf_core: control condition not in subset: %r" % c)
+
+
+def prog(ast, ints, marks, ind):
+    """Lean term of type `St C` computing the effect of the statement list on `s` (a chain of `let s := …`)"""
+    lines = []
+    pad = "  " * ind
+    for st in ast:
+        if id(st) in marks:
+            mk = marks[id(st)]
+            if mk == "inner":
+                lines.append(pad + "let s : St C := { s with a := innerStep s.i.toNat s.k.toNat s.j.toNat s.a }")
+            elif mk == "norm":
+                lines.append(pad + "let s : St C := { s with a := (normalise s.i.toNat s.k.toNat s.a).1, b := (normalise s.i.toNat s.k.toNat s.a).2 }")
+            elif mk == "reduce":
+                lines.append(pad + "let s : St C := { s with a := reduceStep s.i.toNat s.k.toNat s.j.toNat s.b s.a }")
+            continue
+        if st[0] == "stmt":
+            t = st[1]
+            if re.match(r"^(ibz_t|ibz_vec_4_t|ibz_mat_4x8_t)\b", t) or re.match(r"^\w+_(init|finalize)\(", t) or \
+               re.match(r"^int\s+\w+\s*=", t) or t == "ibz_set(&zero, 0)":
+                continue
+            m = re.match(r"^(\w+)\s*=\s*(.+)$", t)
+            if m and m.group(1) in ints:
+                lines.append(pad + "let s : St C := { s with %s := %s }" % (m.group(1), int_expr(m.group(2), ints)))
+                continue
+            raise TranslateError("hnf_core: control statement not in subset: %r" % t)
+        if st[0] in ("for", "while") and only_copies(st[2]):
+            continue                          # input / output copy loops (kept in `skeleton`)
+        if st[0] == "while":
+            lines.append(pad + "let s : St C := whileF %d (fun s => %s) (fun s =>" % (FUEL, int_cond(st[1], ints)))
+            lines += prog(st[2], ints, marks, ind + 2)
+            lines.append(pad + "    s) s")
+        elif st[0] == "for":
+            m = re.match(r"^(\w+)\s*=\s*([^;]+);\s*([^;]+);\s*(\w+)\s*\+\+$", st[1])
+            if not m or m.group(1) != m.group(4) or m.group(1) not in ints:
+                raise TranslateError("hnf_core: for-loop header not in subset: %r" % st[1])
+            lines.append(pad + "let s : St C := { s with %s := %s }" % (m.group(1), int_expr(m.group(2), ints)))
+            lines.append(pad + "let s : St C := whileF %d (fun s => %s) (fun s =>" % (FUEL, int_cond(m.group(3), ints)))
+            lines += prog(st[2], ints, marks, ind + 2)
+            lines.append(pad + "    let s : St C := { s with %s := s.%s + 1 }" % (m.group(1), m.group(1)))
+            lines.append(pad + "    s) s")
+        elif st[0] == "if":
+            lines.append(pad + "let s : St C := if %s then (" % int_cond(st[1], ints))
+            lines += prog(st[2], ints, marks, ind + 2)
+            lines.append(pad + "    s) else (")
+            if st[3] is not None:
+                lines += prog(st[3], ints, marks, ind + 2)
+            lines.append(pad + "    s)")
+    return lines
+
+
 # ------------------------------------------------------------------------------------------------ skeleton
 def skel(ast, depth, marks, out):
     for st in ast:
@@ -325,6 +416,32 @@ def generate(repo, outdir):
     sk = [x for x in sk if not x.strip().endswith("(cont.)>")]
     out += ["/-- control skeleton of `ibz_mat_4x8_hnf_core` (loop headers, guards, integer updates, copy loops) -/",
             "def skeleton : List String :=\n  " + lean_str_list(sk), ""]
+    # ---- the control program
+    ints = {}
+    for st in ast:
+        m = re.match(r"^int\s+(\w+)\s*=\s*(-?\d+)$", st[1]) if st[0] == "stmt" else None
+        if m:
+            ints[m.group(1)] = int(m.group(2))
+    if sorted(ints) != ["i", "j", "k"]:
+        raise TranslateError("hnf_core: expected exactly the integer variables i, j, k, found %s" % sorted(ints))
+    pm = {id(guard): "inner"}
+    for n_, s_ in enumerate(norm_ast):
+        pm[id(s_)] = "norm" if n_ == 0 else "skip"
+    for n_, s_ in enumerate(red[2]):
+        pm[id(s_)] = "reduce" if n_ == 0 else "skip"
+    body = prog(ast, ints, pm, 1)
+    out += ["/-- state of the control program: the C integers i, j, k, the work array a[0..7] and the scalar b -/",
+            "structure St (C : Type) where", "  i : Int", "  j : Int", "  k : Int", "  a : C", "  b : Int", "",
+            "/-- `while (c) body` with a fuel bound (the loops of hnf_core run at most 8 times; the theorem",
+            "    `SqiProps.C14.hnf_core_text` shows the generated program never runs out of fuel) -/",
+            "def whileF {σ : Type} : Nat → (σ → Bool) → (σ → σ) → σ → σ",
+            "  | 0, _, _, s => s",
+            "  | n + 1, c, f, s => if c s then whileF n c f (f s) else s", "",
+            "/-- the control flow of `ibz_mat_4x8_hnf_core` as translated (loops, guards, integer updates), over abstract",
+            "    arithmetic blocks; returns the final state (work array, i, j, k) -/",
+            "def core {C : Type} (innerStep : Nat → Nat → Nat → C → C) (normalise : Nat → Nat → C → C × Int)",
+            "    (reduceStep : Nat → Nat → Nat → Int → C → C) (a0 : C) : St C :=",
+            "  let s : St C := { i := %d, j := %d, k := %d, a := a0, b := 0 }" % (ints["i"], ints["j"], ints["k"])] + body + ["  s", ""]
     ast2 = parse(func_body(src, "ibz_mat_4x4_hnf_mod"), "ibz_mat_4x4_hnf_mod")
     sk2 = []
     skel(ast2, 0, {}, sk2)
